@@ -1,13 +1,22 @@
-(* C13 -- magnet links round-trip (quoting core).
-   [quote_plus]/[unquote_plus]: urllib.parse's functions on UTF-8 byte strings.
-   Proved for ALL byte strings: unquoting inverts quoting and quoted text never
-   contains the field separator '&' or the key/value separator '=', so a rendered
-   URI splits back into exactly the rendered fields.  The composition with the
-   field-wise parser (from_string) is tied by the correspondence run on rendered
-   magnets (model render = implementation render, model parse = implementation
-   parse), not by a theorem; see DESIGN.md. *)
-From Torf Require Import Base Sexp UrlQuote Validate Magnet UrlQuoteProofs.
+(* C13 -- magnet links round-trip.
+   [render] is Magnet.__str__, [parse] is Magnet.from_string (model/Magnet.v;
+   text and URLs are UTF-8 byte strings; is_url is a parameter).
+   Main theorem: for EVERY well-formed magnet object m, parse (render m) = m.
+   Well-formed ([wf]) says what the constructor guarantees plus what the known
+   finding excludes: a valid hash (40 hex / 32 base32), a non-empty display name
+   without newline, size >= 1, valid URLs without spaces and without repetition,
+   keywords without white space, distinct extension parameter names without
+   reserved characters, non-empty values.
+   Building blocks, proved for ALL byte strings: unquoting inverts quoting, quoted
+   text never contains '&' or '=', and a rendered query splits back into exactly
+   the rendered fields. *)
+From Coq Require Import Lia.
+From Torf Require Import Base Sexp UrlQuote Validate Magnet UrlQuoteProofs QueryProofs MagnetRoundtrip RegexProofs.
 Open Scope Z_scope.
+
+Theorem C13_roundtrip : forall is_url m, wf is_url m -> parse is_url (render m) = Ok m.
+Proof. exact parse_render. Qed.
+Print Assumptions C13_roundtrip.
 
 Theorem C13_quote : forall b, Forall is_byte b -> unquote_plus (quote_plus b) = b.
 Proof. exact unquote_plus_quote_plus. Qed.
@@ -18,14 +27,48 @@ Theorem C13_no_separators : forall b, Forall is_byte b ->
 Proof. exact quote_plus_no_separators. Qed.
 Print Assumptions C13_no_separators.
 
-(* non-vacuity: a name with reserved characters and non-ASCII text round-trips through
-   render and parse in the model *)
-Example C13_example :
-  let name := [97; 38; 98; 61; 99; 32; 43; 37; 35; 63; 195; 164]%N in      (* "a&b=c +%#?ä" *)
-  let m := {| m_hash := repeat 97 40; m_dn := Some name; m_xl := Some 5;
-              m_tr := [[104; 116; 116; 112; 58; 47; 47; 97; 46; 98; 47; 120; 63; 113; 61; 49; 38; 122; 61; 37; 50; 48]%N];
-              m_xs := None; m_as := None; m_ws := []; m_kt := [[107; 49]%N; [107; 50]%N];
-              m_x := [([112; 101]%N, [49; 46; 50; 58; 51]%N)] |} in
-  unquote_plus (quote_plus name) = name /\
-  parse simple_is_url (render m) = Ok m.
-Proof. vm_compute. split; reflexivity. Qed.
+(* a rendered query string splits back into exactly the rendered fields *)
+Theorem C13_query_fields : forall fields,
+  Forall (fun p => key_ok (fst p) /\ enc_ok (snd p)) fields ->
+  parse_qsl (join_with 38%N (map (fun p => fst p ++ 61%N :: snd p) fields)) = map (fun p => (fst p, unquote_plus (snd p))) fields.
+Proof. exact parse_qsl_join. Qed.
+Print Assumptions C13_query_fields.
+
+(* refuted on the faithful model (known finding): an empty display name is lost *)
+Theorem C13_empty_name_refuted :
+  exists m, m_dn m = Some [] /\ m_dn match parse simple_is_url (render m) with Ok m' => m' | Err _ => m end = None.
+Proof.
+  exists {| m_hash := repeat 97 40; m_dn := Some []; m_xl := None; m_tr := []; m_xs := None; m_as := None; m_ws := []; m_kt := []; m_x := [] |}.
+  vm_compute. split; reflexivity.
+Qed.
+Print Assumptions C13_empty_name_refuted.
+
+(* non-vacuity: a magnet with reserved characters and non-ASCII text in the name, a tracker with query
+   and escapes, keywords and an extension parameter is well-formed and round-trips *)
+Definition ex_m : magnet :=
+  {| m_hash := repeat 97 40;
+     m_dn := Some [97; 38; 98; 61; 99; 32; 43; 37; 35; 63; 195; 164]%N;      (* "a&b=c +%#?ä" *)
+     m_xl := Some 5;
+     m_tr := [[104; 116; 116; 112; 58; 47; 47; 97; 46; 98; 47; 120; 63; 113; 61; 49; 38; 122; 61; 37; 50; 48]%N];
+     m_xs := None; m_as := None; m_ws := []; m_kt := [[107; 49]%N; [107; 50]%N];
+     m_x := [([112; 101]%N, [49; 46; 50; 58; 51]%N)] |}.
+
+Ltac bytes_ok := repeat constructor; unfold is_byte; cbn; lia.
+
+Example C13_example : wf simple_is_url ex_m /\ parse simple_is_url (render ex_m) = Ok ex_m.
+Proof.
+  split; [|vm_compute; reflexivity].
+  constructor; cbn [ex_m m_hash m_dn m_xl m_tr m_xs m_as m_ws m_kt m_x].
+  - vm_compute. reflexivity.
+  - split; [split; [discriminate|bytes_ok]|]. cbn. intros H. repeat (destruct H as [H|H]; [discriminate H|]). exact H.
+  - lia.
+  - split; [|repeat constructor; intros []]. constructor; [|constructor]. split; [split; [vm_compute; reflexivity|]|split; [discriminate|bytes_ok]].
+    cbn. intros H. repeat (destruct H as [H|H]; [discriminate H|]). exact H.
+  - split; constructor.
+  - exact I.
+  - exact I.
+  - repeat constructor; try discriminate; try (unfold is_byte; cbn; lia).
+  - split; [|repeat constructor; intros []]. constructor; [|constructor]. cbn [fst snd]. split.
+    + unfold key_ok. cbn. repeat split; intros H; repeat (destruct H as [H|H]; [discriminate H|]); exact H.
+    + split; [discriminate|bytes_ok].
+Qed.
